@@ -24,7 +24,7 @@ RULES = {
     "R07.3": "REP recv: split at first-empty+1 over all frames; index < len; envelope stored, body returned; Err exits effect-free",
     "R07.4": "REP send: message.prepend(taken envelope) once, before the write",
     "R07.5": "ZmqMessage::prepend order-preserving; split_off = VecDeque::split_off",
-    "R07.F": "foundation clauses re-evaluated as necessary conditions: " + ", ".join(['decoder', 'identity']),
+    "R07.F": "foundation clauses re-evaluated as necessary conditions: " + ", ".join(['decoder', 'identity', 'wakeup']),
 }
 
 MUTATORS = {"push_front", "push_back", "pop_front", "pop_back", "prepend", "split_off", "clear", "truncate", "insert", "remove", "append", "extend"}
@@ -333,7 +333,7 @@ def check_message_ops(f, rep):
             rep.check(ok, "R07.5", "R07.5|split_off-delegates", "ZmqMessage::split_off(at) = VecDeque::split_off(frames, at): %s" % show(r)[:80], b.loc())
 
 
-DEPENDS = ['decoder', 'identity']     # foundation groups re-evaluated as necessary conditions (rules/found.py)
+DEPENDS = ['decoder', 'identity', 'wakeup']     # foundation groups re-evaluated as necessary conditions (rules/found.py)
 
 
 def run(ctx, f, rep):
